@@ -229,7 +229,9 @@ std::string propTsm(const FmmCase& c, const std::string& prop){
     {
         std::unique_ptr<TaskAlgo> algo;
         Kernel::defaultCtx() = &ctxB;
-        S.reset(c.threads, c.sched);
+        // the runtime may have another number of workers while the executor object is built (omp_set_num_threads, Specx team size)
+        if(RT != 3 && c.threadsCtor > 0) S.reset(c.threadsCtor, c.sched);
+        if(!(RT != 3 && c.threadsCtor > 0)) S.reset(c.threads, c.sched);
         if(c.variant == 1){ if(c.lstop == -100) algo.reset(new TaskAlgo(config)); else algo.reset(new TaskAlgo(config, long(c.lstop))); }
         else if(c.lstop == -100) algo.reset(new TaskAlgo(config, Kernel(&ctxB))); else algo.reset(new TaskAlgo(config, Kernel(&ctxB), long(c.lstop)));
         for(size_t ic = 0 ; ic < calls.size() && err.empty() ; ++ic){
@@ -320,7 +322,7 @@ pbt::GenCfg cfgFor(const std::string& prop, const hc::Args& a){
     g.maxNextra = NX;
     g.lstops = true;
 #if RT != 0
-    g.schedules = true; g.executors = 1 << RT; g.variants = 2;
+    g.schedules = true; g.executors = 1 << RT; g.variants = 2; g.varyThreads = (RT != 3);
 #endif
     if(prop == "C12") g.histories = true;
     return g;
